@@ -495,10 +495,8 @@ func (c *Client) validVirtualChannelProposal(prop *VirtualChannelProposalMsg, ou
 
 	// Check index map entries.
 	indexMap := prop.IndexMaps[ourIdx]
-	for i, p := range indexMap {
-		if int(p) >= numPeers {
-			return errors.Errorf("invalid index map entry %d: %d", i, p)
-		}
+	if err := validIndexMap(indexMap, numPeers, parentState.NumParts()); err != nil {
+		return err
 	}
 
 	virtualBals := transformBalances(prop.InitBals.Balances, parentState.NumParts(), indexMap)
